@@ -117,6 +117,21 @@ fn check_cert(der: &[u8], verifier: u8, expected: PeerId, intermediates: &[Vec<u
         if verifier % 3 == 2 {
             vensure!(key == expected.0, "c01:pin-ignored", "{}: verifier pinned to {} accepted a certificate proving {}", what(), expected, hex::encode(key));
         }
+        // the same certificate offered again outside its validity period (one day after notAfter,
+        // one day before notBefore): having been accepted once must not carry over
+        if let Ok((_, cert)) = x509_parser::parse_x509_certificate(der) {
+            let (nb, na) = (cert.validity().not_before.timestamp(), cert.validity().not_after.timestamp());
+            for t in [na.saturating_add(86_400), nb.saturating_sub(86_400)] {
+                if t <= 0 || (t >= nb && t <= na) { continue; }
+                let t = t as u64;
+                let again = match verifier % 3 {
+                    0 => ic::verify_client_cert(&names, der, intermediates, t),
+                    1 => ic::verify_server_cert(&names, None, der, intermediates, NAME, t),
+                    _ => ic::verify_server_cert(&names, Some(expected), der, intermediates, NAME, t),
+                };
+                vensure!(again.is_err(), "c01:verifier-accepts-invalid", "{}: verifier {} accepted the certificate at unix time {t}, outside its validity period [{nb}, {na}] (it had accepted it inside the period just before)", what(), verifier % 3);
+            }
+        }
     }
     Ok(imp.is_ok())
 }
@@ -391,6 +406,11 @@ pub struct HsCase {
     pub x_connected: bool,
     /// Z first establishes a legitimate connection under its own identity
     pub z_preconnected: bool,
+    /// before the attack an honest listener under Z's own identity answers at Z's address, V dials it
+    /// pinned to Z (succeeds), disconnects, and the listener goes away; the attack then comes from
+    /// the same address
+    #[serde(default)]
+    pub v_dialed_z_before: bool,
     pub link_delay_ms: u8,
 }
 
@@ -464,6 +484,26 @@ pub fn handshake_case(c: &HsCase, obs: &mut Obs) -> Result<(), Fail> {
                 Ok(Ok(_)) => {}
                 _ => return Err(Fail::Inconclusive("honest X could not connect to V".into())),
             }
+        }
+        if c.v_dialed_z_before {
+            let ep0 = adv::raw_endpoint(&sim.fabric, z_addr, Some(adv::server_config(&own, false, Arc::new(Mutex::new(Vec::new())), Arc::new(Mutex::new(Vec::new())))))
+                .map_err(|e| Fail::Inconclusive(e.to_string()))?;
+            let ep0b = ep0.clone();
+            let t = tokio::spawn(async move { let c = adv::accept_and_ack(&ep0b).await; if let Ok(c) = c { c.closed().await; } });
+            match within(15_000, v.net.connect_with_peer_id(z_addr, z_id)).await {
+                Ok(Ok(p)) => vensure!(p == z_id, "c01:dial-returned-wrong-id", "honest pinned dial of Z returned {p}"),
+                other => return Err(Fail::Inconclusive(format!("honest pinned dial of Z failed: {:?}", other.map(|r| r.map_err(|e| e.to_string()))))),
+            }
+            let _ = v.net.disconnect(z_id);
+            ep0.close(0u32.into(), b"");
+            drop(ep0);
+            let _ = within(5_000, t).await;
+            for _ in 0..200 {
+                if !sim.fabric.is_bound(z_addr) { break; }
+                sleep_ms(50).await;
+            }
+            if sim.fabric.is_bound(z_addr) { return Err(Fail::Inconclusive("the first listener did not release Z's address".into())); }
+            obs.label("victim-dialed-this-address-pinned-to-Z-before");
         }
         // Z's endpoint (server side presents the same material)
         let z_server = presented.clone().unwrap_or_else(|| own.clone());
@@ -571,7 +611,7 @@ pub fn handshake_case(c: &HsCase, obs: &mut Obs) -> Result<(), Fail> {
             vensure!(r.inbound == Some(true), "c01:direction", "handler saw direction inbound={:?}", r.inbound);
         }
         for (what, p) in &attributed {
-            let ok = *p == z_id && (legit || c.z_preconnected) || (*p == x.id() && c.x_connected);
+            let ok = *p == z_id && (legit || c.z_preconnected || c.v_dialed_z_before) || (*p == x.id() && c.x_connected);
             vensure!(ok, "c01:attributed-to-unproven-identity", "V attributed {what} to {p}; Z holds only {z_id} (presented {:?} signed {:?}, role {:?}); X connected = {}", c.chain, c.sign, c.role, c.x_connected);
         }
         // a request sent by Z under its own legit identity must be attributed to Z, whatever it says
@@ -595,7 +635,7 @@ impl Part for Handshakes {
     type Case = HsCase;
     fn name(&self) -> &'static str { "handshake" }
     fn rule(&self) -> &'static str {
-        "victim V and honest X are real networks on the fabric, adversary Z is a raw quinn endpoint holding only its own key; Z captures X's certificate from a real handshake and then dials V or is dialed by V (connect / connect_with_peer_id(X) / connect_with_peer_id(Z)), presenting one of {own, X replayed, [own,X], [X,own], X's key spliced+re-signed, X's key issued by Z, own certificate with X's key encoded inside its common name, ECDSA, expired, X's cert with a byte changed, wrong network name, none} and signing the handshake with {own key, junk, a signature over another message, ECDSA key, a mislabelled scheme}; X optionally honestly connected, Z optionally already connected under its own identity; oracle: every identity V lists, announces, returns from connect, shows to handlers or attaches to responses is Z's own (only when Z legitimately proved it) or the honestly connected X; a request for X never reaches Z; a pinned dial for X never succeeds; non-trivial = anything but (own certificate, own key); distinct by case"
+        "victim V and honest X are real networks on the fabric, adversary Z is a raw quinn endpoint holding only its own key; Z captures X's certificate from a real handshake and then dials V or is dialed by V (connect / connect_with_peer_id(X) / connect_with_peer_id(Z)), presenting one of {own, X replayed, [own,X], [X,own], X's key spliced+re-signed, X's key issued by Z, own certificate with X's key encoded inside its common name, ECDSA, expired, X's cert with a byte changed, wrong network name, none} and signing the handshake with {own key, junk, a signature over another message, ECDSA key, a mislabelled scheme}; X optionally honestly connected, Z optionally already connected under its own identity, V optionally having dialed the same address pinned to Z before (an honest listener answered then); oracle: every identity V lists, announces, returns from connect, shows to handlers or attaches to responses is Z's own (only when Z legitimately proved it) or the honestly connected X; a request for X never reaches Z; a pinned dial for X never succeeds; non-trivial = anything but (own certificate, own key); distinct by case"
     }
     fn strategy(&self, _t: Tier) -> BoxedStrategy<HsCase> {
         let chain = prop_oneof![
@@ -605,8 +645,8 @@ impl Part for Handshakes {
         ];
         let sign = prop_oneof![5 => Just(Sign::OwnKey), 1 => Just(Sign::Junk), 1 => Just(Sign::OtherMessage), 1 => Just(Sign::Ecdsa), 1 => Just(Sign::Mislabelled)];
         let role = prop_oneof![3 => prop::bool::weighted(0.85).prop_map(|good_sni| Role::ZDials { good_sni }), 3 => (0u8..3).prop_map(|expect| Role::VDials { expect })];
-        (role, chain, sign, any::<bool>(), prop::bool::weighted(0.3), 1u8..20)
-            .prop_map(|(role, chain, sign, x_connected, z_preconnected, link_delay_ms)| HsCase { role, chain, sign, x_connected, z_preconnected, link_delay_ms })
+        (role, chain, sign, any::<bool>(), prop::bool::weighted(0.3), 1u8..20, prop::bool::weighted(0.25))
+            .prop_map(|(role, chain, sign, x_connected, z_preconnected, link_delay_ms, v_dialed_z_before)| HsCase { role, chain, sign, x_connected, z_preconnected, v_dialed_z_before, link_delay_ms })
             .boxed()
     }
     fn run(&self, c: &HsCase, obs: &mut Obs) -> Result<(), Fail> { handshake_case(c, obs) }
@@ -622,6 +662,14 @@ pub struct MsgCase {
     /// body: 0 = other id raw, 1 = other id hex, 2 = bincode-looking PeerId extension
     pub body_kind: u8,
     pub claim_third: bool,
+    /// further header keys: picks from the dictionary of string literals harvested from the
+    /// sources under test (header names the code knows about)
+    #[serde(default)]
+    pub dict_keys: Vec<u16>,
+    /// also exercise the error path of the typed client: the callee answers with this status
+    /// (index into the status table) and the same identity-naming headers
+    #[serde(default)]
+    pub error_status: Option<u8>,
 }
 
 pub struct Messages;
@@ -629,12 +677,12 @@ impl Part for Messages {
     type Case = MsgCase;
     fn name(&self) -> &'static str { "message" }
     fn rule(&self) -> &'static str {
-        "honest A<->B RPCs whose headers (peer-id, x-peer-id, from, extension-like keys) and bodies name another identity (the callee's own, or a third party's); oracle: the PeerId/Direction the handler sees equal the transport truth (the caller), response.peer_id() equals the callee; non-trivial = every case; distinct by case"
+        "honest A<->B RPCs whose headers (peer-id, x-peer-id, from, extension-like keys, and up to 12 keys drawn from the dictionary of string literals harvested from the sources under test) and bodies name another identity (the callee's own, or a third party's; hex lower/upper, Display and Debug forms), and a responder that answers a typed-client call with a non-success status carrying the same headers; oracle: the PeerId/Direction the handler sees equal the transport truth (the caller), response.peer_id() equals the callee, the Status a typed client returns names the responder (or nobody); non-trivial = every case; distinct by case"
     }
     fn strategy(&self, _t: Tier) -> BoxedStrategy<MsgCase> {
         let key = prop_oneof![Just("peer-id".to_string()), Just("x-peer-id".to_string()), Just("from".to_string()), Just("PeerId".to_string()), Just("anemo::types::peer_id::PeerId".to_string()), "[a-z-]{1,12}"];
-        (any::<bool>(), prop::collection::vec(key, 0..5), 0u8..3, any::<bool>())
-            .prop_map(|(from_a, keys, body_kind, claim_third)| MsgCase { from_a, keys, body_kind, claim_third })
+        (any::<bool>(), prop::collection::vec(key, 0..5), 0u8..3, any::<bool>(), prop::collection::vec(any::<u16>(), 0..12), prop::option::weighted(0.6, 0u8..7))
+            .prop_map(|(from_a, keys, body_kind, claim_third, dict_keys, error_status)| MsgCase { from_a, keys, body_kind, claim_third, dict_keys, error_status })
             .boxed()
     }
     fn run(&self, c: &MsgCase, obs: &mut Obs) -> Result<(), Fail> {
@@ -649,7 +697,11 @@ impl Part for Messages {
             sleep_ms(50).await;
             let (caller, callee) = if c.from_a { (&a, &b) } else { (&b, &a) };
             let claimed = if c.claim_third { peer_id_of_seed(&key_seed(99)) } else { callee.id() };
-            let headers: Vec<(String, String)> = c.keys.iter().filter(|k| *k != "timeout").map(|k| (k.clone(), hex::encode(claimed.0))).collect();
+            let dict = crate::srcdict::header_like_literals();
+            let mut keys: Vec<String> = c.keys.clone();
+            if !dict.is_empty() { keys.extend(c.dict_keys.iter().map(|i| dict[idx(*i, dict.len())].clone())); }
+            let encodings = [hex::encode(claimed.0), hex::encode_upper(claimed.0), format!("{claimed}"), format!("{claimed:?}")];
+            let headers: Vec<(String, String)> = keys.iter().enumerate().filter(|(_, k)| !["timeout", "x-resp-pad"].contains(&k.as_str())).map(|(i, k)| (k.clone(), encodings[i % encodings.len()].clone())).collect();
             let ctl = Ctl { id: 1, delay_ms: 0, status_idx: 0, resp_len: 16, resp_hdrs: 2, mode: 0 };
             let mut req = ctl_request("/whoami", &headers, &ctl, recorder::CTL_LEN);
             let mut body = req.body().to_vec();
@@ -669,6 +721,36 @@ impl Part for Messages {
             vensure!(s.peer == Some(caller.id().0), "c01:message-influenced-identity", "handler attributes the request to {:?}; the caller is {} (the message named {})", s.peer.map(hex::encode), caller.id(), claimed);
             vensure!(s.inbound == Some(true), "c01:direction", "direction seen by the handler: inbound={:?}", s.inbound);
             vensure!(s.origin_inbound == Some(c.from_a), "c01:origin", "connection origin seen by the handler: inbound={:?}, expected {}", s.origin_inbound, c.from_a);
+            // the error path of the typed client: a responder that answers with a non-success status and
+            // the same identity-naming headers; the Status the caller gets must still name the responder
+            if let Some(si) = c.error_status {
+                let code = [400u16, 404, 408, 429, 500, 505, 520][si as usize % 7];
+                let hdrs = headers.clone();
+                let svc = tower::service_fn(move |_req: anemo::Request<bytes::Bytes>| {
+                    let hdrs = hdrs.clone();
+                    async move {
+                        let mut resp = anemo::Response::new(bytes::Bytes::from_static(b"no")).with_status(anemo::types::response::StatusCode::new(code).unwrap());
+                        for (k, v) in hdrs { resp.headers_mut().insert(k, v); }
+                        Ok::<_, std::convert::Infallible>(resp)
+                    }
+                });
+                let rspec = NodeSpec::new(7);
+                let responder = sim.start_node(&rspec, svc).map_err(|e| Fail::Inconclusive(e.to_string()))?;
+                match within(10_000, caller.net.connect(rspec.addr)).await {
+                    Ok(Ok(p)) => vensure!(p == responder.peer_id(), "c01:dial-returned-wrong-id", "connect returned {p}"),
+                    _ => return Err(Fail::Inconclusive("connect to the responder failed".into())),
+                }
+                let peer = caller.net.peer(responder.peer_id()).ok_or_else(|| Fail::Inconclusive("no peer handle".into()))?;
+                let mut client = anemo::rpc::client::Rpc::new(peer);
+                let r: Result<anemo::Response<String>, anemo::rpc::Status> = within(5_000, client.unary(anemo::Request::new("q".to_string()), anemo::rpc::codec::BincodeCodec::<String, String>::default())).await.map_err(|_| Fail::Inconclusive("typed call hung".into()))?;
+                match r {
+                    Err(status) => {
+                        vensure!(status.peer_id().map_or(true, |p| *p == responder.peer_id()), "c01:status-attribution", "the error status of a typed call is attributed to {:?}; the responder is {} (its response carried headers {:?} naming {claimed})", status.peer_id(), responder.peer_id(), keys);
+                        obs.label("typed-client-error-path");
+                    }
+                    Ok(resp) => vfail!("c01:status", "a response with status {code} surfaced as a typed success: {:?}", resp.status()),
+                }
+            }
             obs.nontrivial(&c);
             Ok(())
         })
